@@ -40,6 +40,9 @@ FA = "mokapot.parsers.fasta."
 
 
 def run(ctx):
+    from .common import READ_FASTA, FASTA_OPTIONS, cli_routing
+    cli_routing(ctx, "C16b-cli-fasta-options", READ_FASTA, FASTA_OPTIONS,
+                "the digestion and decoy pairing behind the protein groups")
     prog = ctx.prog
     gp = prog.func(FA + "_group_proteins")
     rf = prog.func(FA + "read_fasta")
@@ -297,6 +300,19 @@ def _read_fasta(ctx, f):
     gp = [t for n in ast.walk(f.node) if isinstance(n, ast.Call)
           for t in [T.of(n)] if t[0] == "call"
           and t[1] == FA + "_group_proteins"]
+    # one grouping pass over ALL digested proteins: a protein can only be
+    # merged into a group the same call has seen
+    partial = [g for g in gp if g[2] and g[2][0][0] == "comp"
+               and any(c[2] for c in g[2][0][3])]
+    ctx.check(len(gp) <= 1 and not partial, "C16d-grouped-together", f,
+              "all digested proteins are grouped in one _group_proteins "
+              "pass",
+              f"{len(gp)} grouping call(s), {len(partial)} of them over a "
+              "filtered part of the proteins: a protein whose peptides are "
+              "contained in a protein of the other part is never merged "
+              "(groups are no longer maximal, shared peptides are "
+              "mis-classified)",
+              node=f.node)
     ctx.require(len(gp) == 1 and len(gp[0][2]) == 2,
                 f"{f.qual}: _group_proteins call not found")
     G = gp[0]
